@@ -171,17 +171,21 @@ def run(res, tier, seed):
                 res.add_case((sc, ch, year, jday), True, dict(ctx, counts="0..1023"))
     res.notes["max_rel_dev_float_vs_spec"] = maxdev
     # ---------- full pipeline: first-line date and distance factor ----------
-    for fmt, sc, start in [("gac_klm", "noaa18", datetime.datetime(2008, 12, 31, 23, 59, 50)), ("gac_klm", "metopa", datetime.datetime(2010, 6, 1, 13, 0, 0)),
+    for fmt, sc, start, *rest in [("gac_klm", "noaa18", datetime.datetime(2008, 12, 31, 23, 59, 50)), ("gac_klm", "metopa", datetime.datetime(2010, 6, 1, 13, 0, 0)),
                            ("gac_pod", "noaa14", datetime.datetime(1996, 2, 29, 11, 0, 0)), ("lac_klm", "noaa19", datetime.datetime(2012, 12, 31, 18, 0, 0)),
-                           ("gac_pod", "noaa11", datetime.datetime(1990, 1, 1, 0, 0, 30)), ("gac_klm", "noaa16", datetime.datetime(2004, 12, 31, 23, 0, 0))]:
+                           ("gac_pod", "noaa11", datetime.datetime(1990, 1, 1, 0, 0, 30)), ("gac_klm", "noaa16", datetime.datetime(2004, 12, 31, 23, 0, 0)),
+                           # the first 60 lines of the pass are absent: the header start (line 1) lies on the previous UTC day
+                           ("gac_klm", "noaa16", datetime.datetime(2001, 4, 11, 0, 0, 10), 61), ("gac_pod", "noaa14", datetime.datetime(1997, 1, 1, 0, 0, 5), 41)]:
+        lead_first = rest[0] if rest else 1
         W = l1b.FMT[fmt]["width"]
         samples = []
         for p in range(W):
             samples += [(3 * p) % 1024, (5 * p + 100) % 1024, (7 * p + 300) % 1024, 600, 620]
         n = 40
-        lines = l1b.default_lines(fmt, n, start, counts=samples, switch=[1] * n)
+        lines = l1b.default_lines(fmt, n, start, counts=samples, switch=[1] * n, first=lead_first)
+        hstart = start - datetime.timedelta(milliseconds=500 * (lead_first - 1))
         try:
-            r = impl.open_reader(fmt, l1b.build_file(fmt, sc, start, lines), adjust_clock_drift=False)
+            r = impl.open_reader(fmt, l1b.build_file(fmt, sc, start, lines, header_start=hstart), adjust_clock_drift=False)
             ch = r.get_calibrated_channels()
             # the reflectance depends on the count, the spacecraft and the date only: asking the same reader again (after
             # the counts and a dataset were requested in between) must give the same values
